@@ -20,6 +20,7 @@ PAYLOADS = [
     ("mix", (U(3), I(5), F32)),
     ("enumarr", (enum_with_max(5), Arr(U(4), 2), St(I(6), U(2)))),
     ("f64", (F64,)),
+    ("unal", (U(4), U(8), U(4), U(16))),
 ]
 IDS = (0, 1, 100, 2047)
 BUSES = ("a", "ab", "abc", "abcd")
